@@ -364,15 +364,52 @@ func (t *Teamserver) Start() {
 				continue
 			}
 
+			/* lists are saved joined by ", "; an empty list is saved as "" */
+			var SplitList = func(joined string) []string {
+				var list []string
+				for _, s := range strings.Split(joined, ", ") {
+					if len(s) > 0 {
+						list = append(list, s)
+					}
+				}
+				return list
+			}
+
 			/* set config of http listener */
-			HandlerData.Hosts = strings.Split(Data["Hosts"].(string), ", ")
+			HandlerData.Hosts = SplitList(Data["Hosts"].(string))
 			HandlerData.HostBind = Data["HostBind"].(string)
 			HandlerData.HostRotation = Data["HostRotation"].(string)
 			HandlerData.PortBind = Data["PortBind"].(string)
 			HandlerData.UserAgent = Data["UserAgent"].(string)
-			HandlerData.Headers = strings.Split(Data["Headers"].(string), ", ")
-			HandlerData.Uris = strings.Split(Data["Uris"].(string), ", ")
+			HandlerData.Headers = SplitList(Data["Headers"].(string))
+			HandlerData.Uris = SplitList(Data["Uris"].(string))
 			HandlerData.BehindRedir = t.Profile.Config.Demon.TrustXForwardedFor
+
+			/* the remaining settings an operator can give a listener */
+			if val, ok := Data["PortConn"].(string); ok {
+				HandlerData.PortConn = val
+			}
+			if val, ok := Data["HostHeader"].(string); ok {
+				HandlerData.HostHeader = val
+			}
+			if val, ok := Data["Proxy Enabled"].(bool); ok {
+				HandlerData.Proxy.Enabled = val
+			}
+			if val, ok := Data["Proxy Type"].(string); ok {
+				HandlerData.Proxy.Type = val
+			}
+			if val, ok := Data["Proxy Host"].(string); ok {
+				HandlerData.Proxy.Host = val
+			}
+			if val, ok := Data["Proxy Port"].(string); ok {
+				HandlerData.Proxy.Port = val
+			}
+			if val, ok := Data["Proxy Username"].(string); ok {
+				HandlerData.Proxy.Username = val
+			}
+			if val, ok := Data["Proxy Password"].(string); ok {
+				HandlerData.Proxy.Password = val
+			}
 
 			HandlerData.Secure = false
 			if Data["Secure"].(string) == "true" {
